@@ -57,7 +57,7 @@ func (s walkScen) String() string {
 
 func parseWalk(op string) walkScen {
 	w := strings.Fields(op)
-	if len(w) != 8 || (w[0] != "walk" && w[0] != "walko") {
+	if len(w) != 8 || (w[0] != "walk" && w[0] != "walko" && w[0] != "walkc") {
 		panic("bad walk op")
 	}
 	// reuse the session tier's parser for the script
@@ -77,6 +77,7 @@ func execWalk(op string) (answer string) {
 		return fatal
 	}
 	defer env.s.Close()
+	defer env.cancel()
 	return env.walk(sc)
 }
 
@@ -87,6 +88,7 @@ type walkEnv struct {
 	mu     sync.Mutex
 	log    []string
 	states [][]byte // paging state of every QUERY/EXECUTE received
+	cancel func()   // cancels the query's context
 }
 
 func (e *walkEnv) reqLog() string {
@@ -222,7 +224,9 @@ func setupWalk(sc walkScen) (env *walkEnv, fatal string) {
 	if sc.prefetch != "0.25" && sc.prefetch != "0.5" {
 		q = q.Prefetch(pf)
 	}
-	env.q = q.WithContext(context.Background())
+	ctx, cancel := context.WithCancel(context.Background())
+	env.cancel = cancel
+	env.q = q.WithContext(ctx)
 	return env, ""
 }
 
@@ -351,6 +355,10 @@ func (env *walkEnv) walk(sc walkScen) string {
 				obs = append(obs, fmt.Sprintf("o=%d/%d/%s", c.NumRows(), ws, ps))
 			case st == "a":
 				obs = append(obs, fmt.Sprintf("a%d", await(cur())))
+			case st == "x":
+				// the caller cancels the query's context; the generator puts an `a` right before, so no fetch is in flight
+				env.cancel()
+				obs = append(obs, "x")
 			case st == "d":
 				var got []int
 				for {
@@ -582,6 +590,45 @@ func walkTier(r *vh.Rng, out *vh.Out, tier string) map[string]interface{} {
 		sc, cls := g.random()
 		emit(sc, cls)
 	}
+	// cancellation walks (op walkc): the query's context is cancelled at a moment where no fetch is in flight —
+	// right after an `a` (no prefetch started: it is disarmed; started: it has completed and its page is in hand)
+	nWalk := len(jobs)
+	nc := 700
+	if tier == "thorough" {
+		nc = 12000
+	}
+	for i := 0; i < nc; i++ {
+		sc, cls := g.random()
+		// drop the tail after a random point, put `a,x` there, then drain or stride on
+		cut := r.Intn(len(sc.steps) + 1)
+		steps := append([]string{}, sc.steps[:cut]...)
+		for len(steps) > 0 && (steps[len(steps)-1] == "D" || steps[len(steps)-1] == "d") {
+			steps = steps[:len(steps)-1]
+		}
+		steps = append(steps, "a", "x")
+		switch r.Intn(4) {
+		case 0:
+			steps = append(steps, "o")
+		case 1:
+			steps = append(steps, "s"+strconv.Itoa(1+r.Intn(4)), "o", "d")
+		case 2:
+			if sc.consumer != "scanner" {
+				steps = append(steps, "D")
+			} else {
+				steps = append(steps, "d")
+			}
+		default:
+			steps = append(steps, "d")
+		}
+		sc.steps = steps
+		emit(sc, "c/"+cls)
+	}
+	opOf := func(i int) string {
+		if i >= nWalk {
+			return "walkc" + strings.TrimPrefix(jobs[i].sc.String(), "walk")
+		}
+		return jobs[i].sc.String()
+	}
 	res := make([]string, len(jobs))
 	var wg sync.WaitGroup
 	sem := make(chan struct{}, 24)
@@ -591,13 +638,17 @@ func walkTier(r *vh.Rng, out *vh.Out, tier string) map[string]interface{} {
 		go func(i int) {
 			defer wg.Done()
 			defer func() { <-sem }()
-			journalStart(3000000+i, jobs[i].sc.String())
-			res[i] = execWalk(jobs[i].sc.String())
+			journalStart(3000000+i, opOf(i))
+			res[i] = execWalk(opOf(i))
 			journalDone(3000000+i, res[i])
 		}(i)
 	}
 	wg.Wait()
 	for i, j := range jobs {
+		if i >= nWalk {
+			out.Case(opOf(i), res[i], j.cls, true)
+			continue
+		}
 		op := j.sc.String()
 		out.Case(op, reduceWalk(res[i]), j.cls, true)
 		out.Case("walko"+strings.TrimPrefix(op, "walk"), res[i], "o/"+j.cls, true)
